@@ -76,6 +76,7 @@ type Result struct {
 	Leaked    []string        `json:"leaked,omitempty"` // goroutines of gqlgen / generated code still alive after the request ended and its context was cancelled
 	Cancelled bool            `json:"cancelled,omitempty"`
 	Crash     string          `json:"crash,omitempty"`
+	VarsVia   string          `json:"varsVia,omitempty"` // C02: the transport that decoded varsJSON (get | post)
 	Plan      json.RawMessage `json:"plan,omitempty"`
 	Plain     *Result         `json:"plain,omitempty"` // the same operation with every @defer removed (C13)
 	Fault     string          `json:"fault,omitempty"`
@@ -155,16 +156,18 @@ func presentedOut(l gqlerror.List) []ErrOut {
 
 // RunCase executes one case through graphql/executor against the generated schema.
 func RunCase(es graphql.ExecutableSchema, c Case) Result {
+	varsVia := ""
 	if c.VarsJSON != "" {
-		dec := json.NewDecoder(strings.NewReader(c.VarsJSON))
-		dec.UseNumber()
-		c.Variables = nil
-		if err := dec.Decode(&c.Variables); err != nil {
-			return Result{ID: c.ID, Query: c.Query, Payloads: []Payload{}, Crash: "bad varsJSON: " + err.Error()}
+		// what the executor gets is what gqlgen's own GET / POST transport makes of the JSON text (varsvia.go)
+		varsVia = varsViaFor(c.ID)
+		vars, err := decodeVia(es, varsVia, c.Query, c.OperationName, c.VarsJSON)
+		if err != nil {
+			return Result{ID: c.ID, Query: c.Query, Payloads: []Payload{}, Crash: "bad varsJSON: " + err.Error(), VarsVia: varsVia}
 		}
+		c.Variables = vars
 	}
 	st := &State{Plan: c.Plan, Schema: es.Schema(), CancelAt: int64(c.CancelAt)}
-	res := Result{ID: c.ID, Query: c.Query, Variables: c.Variables, OpName: c.OperationName, Payloads: []Payload{}}
+	res := Result{ID: c.ID, Query: c.Query, Variables: c.Variables, OpName: c.OperationName, Payloads: []Payload{}, VarsVia: varsVia}
 	ex := executor.New(es)
 	var rmu sync.Mutex
 	if !c.DefaultRecover {
